@@ -30,6 +30,10 @@ def configs():
                 for betas in ((0.9, 0.999), (0.5, 0.9), (0.0, 0.5)):
                     for eps in (1e-8, 1e-3):
                         out.append({"opt": name, "weight_decay": wd, "maximize": mx, "betas": list(betas), "eps": eps})
+    out.append({"opt": "SGD", "momentum": 0.9, "dampening": 0.5, "nesterov": False, "weight_decay": 0.1, "maximize": False, "np_scalars": True})
+    out.append({"opt": "SGD", "momentum": 0.9, "dampening": 0.0, "nesterov": True, "weight_decay": 0.1, "maximize": True, "np_scalars": True})
+    for name in ("Adam", "AdamW"):
+        out.append({"opt": name, "weight_decay": 0.1, "maximize": False, "betas": [0.5, 0.9], "eps": 1e-3, "np_scalars": True})
     return out
 
 def grads(vals, which):
@@ -71,14 +75,20 @@ def make_lib(cfg):
     P = {k: sg.nn.Parameter(sg.Tensor(INIT[k].astype(DT[k]), requires_grad=True)) for k in INIT}
     P["w3"].requires_grad = False
     plist = [P[k] for k in OPT_PARAMS]
-    kw = {k: (tuple(v) if k == "betas" else v) for k, v in cfg.items() if k not in ("opt", "lr")}
-    opt = getattr(sg.optim, cfg["opt"])(plist, lr=cfg.get("lr", LR), **kw)
+    kw = {k: (tuple(v) if k == "betas" else v) for k, v in cfg.items() if k not in ("opt", "lr", "np_scalars")}
+    lr = cfg.get("lr", LR)
+    if cfg.get("np_scalars"):
+        # hyper-parameters handed over as NumPy float64 scalars (read from a config array): values identical, and the
+        # float32 parameter must stay float32
+        lr = np.float64(lr)
+        kw = {k: (tuple(np.float64(x) for x in v) if k == "betas" else (np.float64(v) if isinstance(v, float) and not isinstance(v, bool) else v)) for k, v in kw.items()}
+    opt = getattr(sg.optim, cfg["opt"])(plist, lr=lr, **kw)
     return sg, P, opt
 
 def make_torch(cfg):
     t = harness.torch()
     TP = {k: t.tensor(INIT[k].astype(DT[k]).astype(np.float64), requires_grad=(k != "w3")) for k in INIT}
-    kw = {k: (tuple(v) if k == "betas" else v) for k, v in cfg.items() if k not in ("opt", "lr")}
+    kw = {k: (tuple(v) if k == "betas" else v) for k, v in cfg.items() if k not in ("opt", "lr", "np_scalars")}
     opt = getattr(t.optim, cfg["opt"])([TP[k] for k in OPT_PARAMS], lr=cfg.get("lr", LR), **kw)
     return t, TP, opt
 
@@ -102,6 +112,7 @@ def run_history(cfg, hist):
     mgrad = {k: None for k in INIT}           # model gradients (None = absent)
     zero_only = set()                          # gradient exists only because zero_grad created it
     ident = {k: (id(P[k]), P[k].dtype, P[k].shape) for k in INIT}
+    storage = {k: P[k].data for k in INIT}       # the arrays the model holds: updates are applied in place to THEM
     viols = []
     frozen = {"w3"}
     def cur():
@@ -175,6 +186,9 @@ def run_history(cfg, hist):
                 v("frozen-parameter-moved" if k == "w3" else "foreign-parameter-moved", f"{k} bytes changed after {prefix}")
             if (id(P[k]), P[k].dtype, P[k].shape) != ident[k]:
                 v("parameter-identity-dtype-or-shape-changed", f"{k} after {prefix}: dtype {P[k].dtype}, shape {P[k].shape}")
+            elif P[k].data is not storage[k] and not np.shares_memory(P[k].data, storage[k]):
+                v("parameter-storage-replaced", f"{k} after {prefix}: the parameter's data is a new array - the update was not applied in place "
+                  "(a tensor or array sharing the parameter's storage no longer follows it)")
         if viols:
             return viols, i + 1
         # ---- cross-validate the transcribed rules against torch.optim itself (parameters whose history is unambiguous)
@@ -229,7 +243,7 @@ def run(tier, seed):
                    f"length {depth} over {{backward(L1), backward(L2), zero_grad, step, unfreeze w3}} (every shorter history is a prefix and is "
                    "compared event by event): parameters w1 (float64, first gradient arrives late), w2 (float32, 2x2), w5 (0-d), frozen w3 and foreign w4; states = "
                    "(configuration, history prefix) pairs; after every event parameter values vs the transcribed PyTorch rules "
-                   "(cross-validated against torch.optim at 1e-11), identity/dtype/shape, frozen and foreign parameters byte-identical"}
+                   "(cross-validated against torch.optim at 1e-11), identity/dtype/shape/storage (4 configurations pass NumPy float64 scalars as hyper-parameters), frozen and foreign parameters byte-identical"}
     return {"level": "model_checking", "violations": viols, "coverage": cov,
             "assumptions": ["a gradient that exists only because zero_grad created it may be treated as absent (torch) or as g=0 "
                             "(synapgrad); either successor is accepted and the model continues from the one observed",
